@@ -301,6 +301,7 @@ def run(ctx, rep_):
     value_functions_check_their_exit(F, rep_)
     fields_are_initialised(F, rep_)
     class_callable_only_from_module(F, rep_)
+    loop_counter_type(F, rep_)
     # `x[i]` on an accepted type is compiled to the access that fits the run-time kind of x (shared with C13)
     from props import C13 as _c13
     _c13.index_dispatch(F, rep_, rule="C02.index-dispatch")
@@ -568,6 +569,40 @@ def class_callable_only_from_module(F, rep, rule="C02.callable-field"):
             rep.ob(rule, inst, "ok" if l in der or l in mod_locals else "undecided", "the flag is computed from the receiver's type" if (l in der or l in mod_locals) else
                    "the flag is a value this rule cannot trace to a Module test", c.span, fn=f.path, key=key)
     rep.floor(rule + " is_callable_allow_class calls in dot_chain_option", n, 2)
+
+
+def loop_counter_type(F, rep, rule="C02.loop-counter-type"):
+    """The counter of `from a to b step s, i` holds a, a+s, a+2s, ..: its static type is the type of `a + s` (a float as soon as either is
+    one).  In Parser::number_loop the type the counter is registered with (link_force_no_inherit) is computed by get_output_type from the
+    start and step types, not written down as a constant."""
+    nl = F.fn("compiler::parser::Parser::number_loop")
+    if nl is None:
+        cands = [g for g in F.crates["compiler"].fns if g.path.endswith("::number_loop") and "impl compiler::parser::Parser" in g.path]
+        nl = cands[0] if len(cands) == 1 else None
+    if nl is None:
+        raise AnchorMissing("Parser::number_loop")
+    links = nl.calls_to("compiler::ast::ident::Ident::link_force_no_inherit")
+    rep.floor(rule + " counter registrations", len(links), 1)
+    thr = rules.TRANSPARENT | {rules.TRY_BRANCH, "core::option::Option::unwrap_or_else", "core::option::Option::unwrap_or", "core::option::Option::unwrap",
+                               "core::option::Option::ok_or", "compiler::VecErr::to_err_vec"}
+    for i, c in enumerate(links):
+        l = op_local(c.args[2]) if len(c.args) > 2 else None
+        org = rules.origins(nl, l, transparent=thr) if l is not None else set()
+        oc = rules.origin_calls(nl, l, transparent=thr) if l is not None else []
+        # the Cow wrapper built on the spot: look inside
+        if not oc:
+            for o in org:
+                if o[0] == "agg":
+                    for bi, si, dst, rv, s_ in nl.assigns():
+                        if bi == o[1] and si == o[2] and "agg" in rv:
+                            for x in rv["ops"]:
+                                if op_local(x) is not None:
+                                    oc += rules.origin_calls(nl, op_local(x), transparent=thr)
+                                    org = org | rules.origins(nl, op_local(x), transparent=thr)
+        computed = any(x.callee().endswith("TypeLayout::get_output_type") for x in oc)
+        rep.ob(rule, "the loop counter is registered with the type of start + step", "ok" if computed else "violated",
+               "" if computed else "the counter's type does not come from get_output_type (origins %s): `from 0.0 to 1.0 step 0.5, i` gives an `int` that holds 0.5"
+               % sorted(str(o) for o in org)[:3], c.span, fn=nl.path, key="%s|#%d" % (rule, i))
 
 
 def opassign_result_storable(F, rep, rule="C02.opassign-result"):
